@@ -170,6 +170,11 @@ func verifRunC05(c *verifsim.Ctx) {
 				t := allTasks[c.Draw("lane-task", len(allTasks))]
 				t.JoinLane(l)
 				c.Logf("task %s joins lane %d", t.ID(), l)
+				if c.Draw("also-default-lane", 4) == 3 {
+					// (as the "join every lane of that task" idiom does for a task in no lane)
+					t.JoinLane(0)
+					c.Logf("task %s joins lane 0 explicitly", t.ID())
+				}
 			}
 		case 5:
 			if len(allTasks) > 0 {
@@ -240,7 +245,12 @@ func verifRunC05(c *verifsim.Ctx) {
 				st.Warnf("warning %d", c.Draw("warn", 4))
 			case 1: // explicit options, incl. "always repeat"
 				ra := []time.Duration{0, time.Minute, 36 * time.Hour}[c.Draw("warn-repeat-after", 3)]
-				st.AddWarning("warning opt "+strconv.Itoa(c.Draw("warn", 4)), &state.AddWarningOptions{RepeatAfter: ra})
+				opts := &state.AddWarningOptions{RepeatAfter: ra}
+				if c.Draw("warn-explicit-time", 3) == 2 {
+					// the caller's own occurrence time, possibly older than the first one recorded
+					opts.Time = time.Now().Add(-time.Duration(c.Draw("warn-time-back-min", 3*24*60)) * time.Minute)
+				}
+				st.AddWarning("warning opt "+strconv.Itoa(c.Draw("warn", 4)), opts)
 			case 2:
 				st.AddWarning("warning nil-options "+strconv.Itoa(c.Draw("warn", 3)), nil)
 			case 3: // acknowledge what was shown / drop one
